@@ -76,7 +76,7 @@ func init() {
 	register(&Check{
 		ID:    "C20",
 		Level: "fault_enumeration",
-		Rule: "first clause: every token sequence up to the stated length over each declared alphabet is parsed and formatted into a scripted writer (with and without a WriteString method) that may fail at any one write call (every fault point: one execution per call index, plus the fault-free execution, which also checks nil error, determinism, equality of both writer kinds and an unchanged tree); second clause: every canonical-style document of the supported construct set S_fmt (DESIGN.md) is formatted, re-parsed, compared on rendered HTML and re-formatted; non-trivial = first clause: an execution with an injected failure after at least one successful write; second clause: the formatted text differs from the canonical serialization",
+		Rule:  "first clause: every token sequence up to the stated length over each declared alphabet is parsed and formatted into a scripted writer (with and without a WriteString method) that may fail at any one write call (every fault point: one execution per call index, plus the fault-free execution, which also checks nil error, determinism, equality of both writer kinds and an unchanged tree); second clause: every canonical-style document of the supported construct set S_fmt (DESIGN.md) is formatted, re-parsed, compared on rendered HTML and re-formatted; non-trivial = first clause: an execution with an injected failure after at least one successful write; second clause: the formatted text differs from the canonical serialization",
 		Assumptions: []string{
 			"a writer fails by returning (0, err) and keeps returning that error; short writes without error are outside the io.Writer contract and not generated",
 			"at most one failure per execution is meaningful because Format must not write again after the first error",
